@@ -9,6 +9,11 @@ package consumer
 // BEFORE it runs it and the result after; a child that dies (fatal "out of memory", watchdog) therefore means
 // "the implementation crashed / ballooned on case N": the parent records that and restarts behind N.
 //
+// With VERIF_WIRE_CONC=<G> the parent itself (no child: only well-formed messages are used) pushes all vo / vm cases
+// through ONE module from G goroutines at once (VERIF_WIRE_ROUNDS times) and attributes the emitted requests to the cases by
+// their group names, which the generator makes unique: the decoder has to be re-entrant, as the per-partition
+// partitionConsumer goroutines call it concurrently.
+//
 // Case and output line formats: see /verif/ocaml/drv_wire.ml.  Besides the model's observables the msg lines end in
 // "| A <TotalAlloc delta> <len(key)+len(value)>"; the checks compare that with the property's bound, not the model.
 
@@ -25,6 +30,7 @@ import (
 	"sort"
 	"strconv"
 	"strings"
+	"sync"
 	"testing"
 	"time"
 
@@ -71,6 +77,11 @@ func TestVerifProbeWire(t *testing.T) {
 	lines, err := vwReadLines(casesPath)
 	if err != nil {
 		t.Fatal(err)
+	}
+	if g := os.Getenv("VERIF_WIRE_CONC"); g != "" {
+		workers, _ := strconv.Atoi(g)
+		vwConcurrent(t, lines, workers, outPath)
+		return
 	}
 	n := len(lines)
 	results := make([]string, n)
@@ -161,13 +172,20 @@ func vwDeathReason(runErr error, out []byte) string {
 // child
 // ---------------------------------------------------------------------------------------------------------------
 
-type vwEnv struct {
-	ch      chan *protocol.StorageRequest
-	modules map[[2]int]*KafkaClient
+type vwModKey struct {
+	name, cluster string
+	allow, deny   int
 }
 
-func (e *vwEnv) module(allow, deny int) *KafkaClient {
-	k := [2]int{allow, deny}
+type vwEnv struct {
+	ch      chan *protocol.StorageRequest
+	modules map[vwModKey]*KafkaClient
+}
+
+// module builds (once per configuration) a consumer module called `name` that reads for cluster `cluster`, the way
+// fixtureModule() + Configure do.  The two names are different strings in most cases.
+func (e *vwEnv) module(name, cluster string, allow, deny int) *KafkaClient {
+	k := vwModKey{name, cluster, allow, deny}
 	if m, ok := e.modules[k]; ok {
 		return m
 	}
@@ -175,18 +193,18 @@ func (e *vwEnv) module(allow, deny int) *KafkaClient {
 	module.App = &protocol.ApplicationContext{StorageChannel: e.ch}
 	viper.Reset()
 	viper.Set("client-profile..client-id", "testid")
-	viper.Set("cluster.test.class-name", "kafka")
-	viper.Set("cluster.test.servers", []string{"broker1.example.com:1234"})
-	viper.Set("consumer.test.class-name", "kafka")
-	viper.Set("consumer.test.servers", []string{"broker1.example.com:1234"})
-	viper.Set("consumer.test.cluster", "test")
+	viper.Set("cluster."+cluster+".class-name", "kafka")
+	viper.Set("cluster."+cluster+".servers", []string{"broker1.example.com:1234"})
+	viper.Set("consumer."+name+".class-name", "kafka")
+	viper.Set("consumer."+name+".servers", []string{"broker1.example.com:1234"})
+	viper.Set("consumer."+name+".cluster", cluster)
 	if allow != 0 {
-		viper.Set("consumer.test.group-allowlist", vwPatterns[allow])
+		viper.Set("consumer."+name+".group-allowlist", vwPatterns[allow])
 	}
 	if deny != 0 {
-		viper.Set("consumer.test.group-denylist", vwPatterns[deny])
+		viper.Set("consumer."+name+".group-denylist", vwPatterns[deny])
 	}
-	module.Configure("test", "consumer.test")
+	module.Configure(name, "consumer."+name)
 	e.modules[k] = module
 	return module
 }
@@ -205,7 +223,7 @@ func vwChild(t *testing.T) {
 	if err != nil {
 		t.Fatal(err)
 	}
-	env := &vwEnv{ch: make(chan *protocol.StorageRequest, 1<<16), modules: map[[2]int]*KafkaClient{}}
+	env := &vwEnv{ch: make(chan *protocol.StorageRequest, 1<<16), modules: map[vwModKey]*KafkaClient{}}
 	for i := start; i < len(lines); i++ {
 		jf.WriteString(strconv.Itoa(i) + "\n")
 		idx := i
@@ -283,17 +301,13 @@ func vwFmtReq(r *protocol.StorageRequest) string {
 	case protocol.StorageSetDeleteGroup:
 		kind = "delete"
 	}
-	cluster := r.Cluster
-	if cluster == "" || strings.ContainsAny(cluster, " ;|") {
-		cluster = "?" + hex.EncodeToString([]byte(r.Cluster))
-	}
-	return fmt.Sprintf("%s %s %s %s %d %d %d %d %s %s", kind, cluster, vwHex(r.Group), vwHex(r.Topic), r.Partition,
+	return fmt.Sprintf("%s %s %s %s %d %d %d %d %s %s", kind, vwHex(r.Cluster), vwHex(r.Group), vwHex(r.Topic), r.Partition,
 		r.Offset, r.Timestamp, r.Order, vwHex(r.Owner), vwHex(r.ClientID))
 }
 
 // vwProcess runs the real processConsumerOffsetsMessage on one message and projects what it did.
-func vwProcess(env *vwEnv, allow, deny int, order int64, key, value []byte) (res string) {
-	module := env.module(allow, deny)
+func vwProcess(env *vwEnv, name, cluster string, allow, deny int, order int64, key, value []byte) (res string) {
+	module := env.module(name, cluster, allow, deny)
 	for len(env.ch) > 0 {
 		<-env.ch
 	}
@@ -359,20 +373,23 @@ func vwRunCase(env *vwEnv, line string) string {
 	tk := &vwToks{f: strings.Fields(line)}
 	switch tk.next() {
 	case "msg":
+		name, cluster := string(tk.hexb()), string(tk.hexb())
 		allow, deny := tk.int(), tk.int()
 		order := tk.i64()
 		key, value := tk.hexb(), tk.hexb()
-		return vwProcess(env, allow, deny, order, key, value)
+		return vwProcess(env, name, cluster, allow, deny, order, key, value)
 	case "vo":
+		name, cluster := string(tk.hexb()), string(tk.hexb())
 		allow, deny := tk.int(), tk.int()
 		order := tk.i64()
 		key, value := vwEncOffset(tk)
-		return "K " + vwHex(string(key)) + " V " + vwHex(string(value)) + " => " + vwProcess(env, allow, deny, order, key, value)
+		return "K " + vwHex(string(key)) + " V " + vwHex(string(value)) + " => " + vwProcess(env, name, cluster, allow, deny, order, key, value)
 	case "vm":
+		name, cluster := string(tk.hexb()), string(tk.hexb())
 		allow, deny := tk.int(), tk.int()
 		order := tk.i64()
 		key, value := vwEncMeta(tk)
-		return "K " + vwHex(string(key)) + " V " + vwHex(string(value)) + " => " + vwProcess(env, allow, deny, order, key, value)
+		return "K " + vwHex(string(key)) + " V " + vwHex(string(value)) + " => " + vwProcess(env, name, cluster, allow, deny, order, key, value)
 	case "re":
 		// the module's accept decision, observed through the pinned entry point only: a well-formed offset commit for
 		// the group yields its update exactly when the lists accept the group
@@ -387,24 +404,174 @@ func vwRunCase(env *vwEnv, line string) string {
 		v.i64(1)
 		v.str(nil)
 		v.i64(2)
-		if strings.HasPrefix(vwProcess(env, allow, deny, 0, k.Bytes(), v.Bytes()), "OK 1 ") {
+		if strings.HasPrefix(vwProcess(env, "test", "test", allow, deny, 0, k.Bytes(), v.Bytes()), "OK 1 ") {
 			return "ACC 1"
 		}
 		return "ACC 0"
 	case "c10":
 		// C10, reader half: what the real regexp package answers for the configured patterns on the group (four
 		// booleans), what the module forwards for the message with the lists, and what it forwards without any list
+		name, cluster := string(tk.hexb()), string(tk.hexb())
 		allow, deny := tk.int(), tk.int()
 		order := tk.i64()
 		g := tk.hexb()
 		key, value := tk.hexb(), tk.hexb()
 		aM := allow != 0 && regexp.MustCompile(vwPatterns[allow]).MatchString(string(g))
 		dM := deny != 0 && regexp.MustCompile(vwPatterns[deny]).MatchString(string(g))
-		with := vwStripInfo(vwProcess(env, allow, deny, order, key, value))
-		without := vwStripInfo(vwProcess(env, 0, 0, order, key, value))
+		with := vwStripInfo(vwProcess(env, name, cluster, allow, deny, order, key, value))
+		without := vwStripInfo(vwProcess(env, name, cluster, 0, 0, order, key, value))
 		return fmt.Sprintf("B %s %s %s %s => %s || %s", vwBit(allow != 0), vwBit(aM), vwBit(deny != 0), vwBit(dM), with, without)
 	}
 	return "BADCASE"
+}
+
+// ---------------------------------------------------------------------------------------------------------------
+// Concurrent stream
+// ---------------------------------------------------------------------------------------------------------------
+
+type vwConcCase struct {
+	group      string
+	order      int64
+	key, value []byte
+}
+
+func vwFmtReqs(reqs []string) string {
+	sort.Strings(reqs)
+	out := "OK " + strconv.Itoa(len(reqs))
+	if len(reqs) > 0 {
+		out += " " + strings.Join(reqs, " ; ")
+	}
+	return out
+}
+
+func vwConcurrent(t *testing.T, lines []string, workers int, outPath string) {
+	if workers < 2 {
+		workers = 2
+	}
+	rounds := 3
+	if r, err := strconv.Atoi(os.Getenv("VERIF_WIRE_ROUNDS")); err == nil && r > 0 {
+		rounds = r
+	}
+	env := &vwEnv{ch: make(chan *protocol.StorageRequest, 1<<12), modules: map[vwModKey]*KafkaClient{}}
+	cases := make([]vwConcCase, len(lines))
+	byGroup := map[string]int{}
+	var module *KafkaClient
+	for i, line := range lines {
+		tk := &vwToks{f: strings.Fields(line)}
+		kind := tk.next()
+		name, cluster := string(tk.hexb()), string(tk.hexb())
+		allow, deny := tk.int(), tk.int()
+		if module == nil {
+			module = env.module(name, cluster, allow, deny) // one module for the whole batch
+		}
+		c := vwConcCase{order: tk.i64()}
+		switch kind {
+		case "vo":
+			c.group = string(vwPeekOpt(tk, 1))
+			c.key, c.value = vwEncOffset(tk)
+		case "vm":
+			c.group = string(vwPeekOpt(tk, 0))
+			c.key, c.value = vwEncMeta(tk)
+		default:
+			t.Fatalf("concurrent stream: case %d is not a vo / vm case", i)
+		}
+		if _, dup := byGroup[c.group]; dup {
+			t.Fatalf("concurrent stream: group of case %d is not unique", i)
+		}
+		byGroup[c.group] = i
+		cases[i] = c
+	}
+	results := make([][]string, rounds)
+	strays := make([][]string, rounds)
+	for r := 0; r < rounds; r++ {
+		var collected []*protocol.StorageRequest
+		stop, collDone := make(chan struct{}), make(chan struct{})
+		go func() {
+			defer close(collDone)
+			for {
+				select {
+				case req := <-env.ch:
+					collected = append(collected, req)
+				case <-stop:
+					for {
+						select {
+						case req := <-env.ch:
+							collected = append(collected, req)
+						default:
+							return
+						}
+					}
+				}
+			}
+		}()
+		start := make(chan struct{})
+		var wg sync.WaitGroup
+		for w := 0; w < workers; w++ {
+			wg.Add(1)
+			go func(w int) {
+				defer wg.Done()
+				<-start
+				for i := w; i < len(cases); i += workers {
+					c := cases[i]
+					module.processConsumerOffsetsMessage(&sarama.ConsumerMessage{Topic: "__consumer_offsets", Partition: int32(w),
+						Offset: c.order, Key: c.key, Value: c.value})
+				}
+			}(w)
+		}
+		close(start)
+		wg.Wait()
+		close(stop)
+		<-collDone
+		per := make([][]string, len(cases))
+		for _, req := range collected {
+			if i, ok := byGroup[req.Group]; ok {
+				per[i] = append(per[i], vwFmtReq(req))
+			} else {
+				strays[r] = append(strays[r], vwFmtReq(req))
+			}
+		}
+		results[r] = make([]string, len(cases))
+		for i := range cases {
+			results[r][i] = vwFmtReqs(per[i])
+		}
+	}
+	outf, err := os.Create(outPath)
+	if err != nil {
+		t.Fatal(err)
+	}
+	w := bufio.NewWriter(outf)
+	for i, c := range cases {
+		line := "K " + vwHex(string(c.key)) + " V " + vwHex(string(c.value)) + " => " + results[0][i]
+		for r := 1; r < rounds; r++ {
+			if results[r][i] != results[0][i] {
+				line += " ## round " + strconv.Itoa(r) + ": " + results[r][i]
+			}
+		}
+		if i == 0 {
+			for r := 0; r < rounds; r++ {
+				if len(strays[r]) > 0 {
+					line += " ## round " + strconv.Itoa(r) + " sent " + strconv.Itoa(len(strays[r])) +
+						" request(s) for groups that are in no message, e.g. " + strays[r][0]
+				}
+			}
+		}
+		fmt.Fprintln(w, line)
+	}
+	w.Flush()
+	outf.Close()
+}
+
+// vwPeekOpt returns the nullable string token `ahead` tokens past the current one without consuming anything.
+func vwPeekOpt(tk *vwToks, ahead int) []byte {
+	s := tk.f[tk.i+ahead]
+	if s == "N" || s == "-" {
+		return nil
+	}
+	b, err := hex.DecodeString(s)
+	if err != nil {
+		panic(err)
+	}
+	return b
 }
 
 // ---------------------------------------------------------------------------------------------------------------
